@@ -387,6 +387,7 @@ StartHo(m, name, args) ==
         a1 == Arg(args, 1, None)  a2 == Arg(args, 2, None)  a3 == Arg(args, 3, Bool(FALSE)) IN
     IF \E i \in 1..n : args[i].t = "opaque" THEN LeftDomain(m, "opaque argument")
     ELSE IF n >= 1 /\ TooLong(m.heap, a1) THEN LeftDomain(m, "container too long for stepwise higher-order evaluation")
+    ELSE IF n >= 1 /\ a1.t \in {"builtin", "hostfn"} THEN LeftDomain(m, "function object as data argument")
     ELSE CASE name = "map" ->
             IF n # 2 THEN Raise(m, TypeErr)
             ELSE IF a1.t \in {"list", "str"} THEN HoNext([m EXCEPT !.k = Push(@, HoFrame("map", a1, a2))])
